@@ -51,6 +51,27 @@ def lex_suite(prop, seed, n_random, out, drv, exhaustive_len=0, corpus_files=0):
     out.suites.append(dict(name='lexer/parser vs ANTLR', random=n_random, exhaustive_len=exhaustive_len, corpus=corpus_files))
 
 
+def charclass_suite(prop, seed, out, drv, full=False):
+    """the scanner model's character classes against the generated lexer, code point by code point: every code point (quick: 0..0x2FFF,
+    the line/paragraph separators and a stride through the rest; thorough: all of them, surrogates excepted) in six lexical contexts —
+    alone, inside an identifier/unquoted argument, after a backslash, as an argument, inside a quoted argument, inside a line comment"""
+    cps = list(range(0, 0x110000)) if full else sorted(set(range(0, 0x3000)) | {0x3000, 0xFEFF, 0xFFFD, 0xFFFF, 0x10000, 0x1F600, 0x10FFFF}
+                                                         | set(range(0x3000 + seed % 97, 0x110000, 97)))
+    cps = [c for c in cps if not 0xD800 <= c <= 0xDFFF]
+    ctxs = [lambda ch: ch, lambda ch: 'a' + ch + 'b', lambda ch: 'x\\' + ch + 'y', lambda ch: 'f(' + ch + ')', lambda ch: 'f("' + ch + '")', lambda ch: '#' + ch + '\nf()']
+    strings = [f(chr(c)) for c in cps for f in ctxs]
+    for k in range(0, len(strings), 60000):
+        chunk = strings[k:k + 60000]
+        mo = drv.run([dict(op='lex', src=s_) for s_ in chunk])
+        for s_, m in zip(chunk, mo):
+            r = impl.real_lex(s_)
+            if r != m:
+                out.disagreements.append(dict(suite='lexer-character-classes', key=s_, source=s_, detail=dict(kind='token stream', model=m, real=r)))
+                if len(out.disagreements) > 20: break
+    out.traces_validated += len(strings); out.evaluations += len(strings); out.dist['lexer-character-classes:code points'] += len(cps)
+    out.suites.append(dict(name='lexer character classes', code_points=len(cps), contexts=len(ctxs)))
+
+
 # ---- C04: layout families ------------------------------------------------------------------------------------------
 def crlf_norm(s):
     return [l for l in s.replace('\r', '').split('\n') if l.strip() != '']
